@@ -61,11 +61,12 @@ def flood(events: List[Event], pulsetime: float = 5) -> List[Event]:
             # Prioritize flooding from the longer event
             if e1.duration >= e2.duration:
                 if e1.data == e2.data:
-                    # Extend e1 to the end of e2
-                    # Set duration of e2 to zero (mark to delete)
-                    e1.duration = e2_end - e1.timestamp
-                    e2.timestamp = e2_end
-                    e2.duration = timedelta(0)
+                    # Merge into e2 and discard e1, as in the case below.
+                    # (Extending e1 would leave e2 as a zero-duration event at
+                    # e2_end, but timestamps are truncated to milliseconds)
+                    e2.timestamp = e1.timestamp
+                    e2.duration = e2_end - e2.timestamp
+                    e1.duration = timedelta(0)
                 else:
                     # Extend e1 to the start of e2
                     e1.duration = e2.timestamp - e1.timestamp
@@ -77,7 +78,13 @@ def flood(events: List[Event], pulsetime: float = 5) -> List[Event]:
                     e1.duration = timedelta(0)
                 else:
                     # Extend e2 backwards to end of e1
-                    e2.timestamp = e1.timestamp + e1.duration
+                    e1_end = e1.timestamp + e1.duration
+                    e2.timestamp = e1_end
+                    if e2.timestamp < e1_end:
+                        # Timestamps are truncated to milliseconds, so e2 would
+                        # start before e1 has ended: meet at the next millisecond
+                        e2.timestamp += timedelta(milliseconds=1)
+                        e1.duration = e2.timestamp - e1.timestamp
                     e2.duration = e2_end - e2.timestamp
 
     # Filter out remaining zero-duration events
